@@ -69,6 +69,18 @@ CHECKS['C17'] = {
     'technique': 'dominating-guard analysis + element abstraction + interval/monotonicity abstract interpretation of closed forms',
 }
 
+CHECKS['C16'] = {
+    'category': 'other',
+    'text': 'Trip-count abstract interpretation: the bracketing index is bounded by its initial value plus the trip count of the scan loop; any '
+            'branch outcome on it that is unsatisfiable under that bound, and any mode handler reachable only through such a branch, is reported '
+            '(this is what made the right-hand Fill/Panic/Extrapolate handling dead). Also: no definitely-out-of-bounds element access, both '
+            'extrapolation formulas anchored at the first/last segment, the in-range value is the convex combination of neighbouring knots with '
+            'one common k, and the checked variant reaches the unchecked one only through its length assert and adjacent-pair ordering loop.',
+    'design_ref': 'DESIGN.md 4.16, 3 (E-ABS trip-count bound, must-check)',
+    'note': 'Bounds are polynomials in len(x) assuming len(x) >= 1; data-dependent float comparisons are treated as satisfiable both ways.',
+    'technique': 'counter-bound abstract interpretation + dead-branch/reachability + dominating-guard and term-shape matching on MIR',
+}
+
 NOT_APPLICABLE = {
     'C09': 'accuracy of the Lanczos/asymptotic/Abramowitz-Stegun approximations over a continuum of arguments is a numerical '
            'quantity; no structural clause is a necessary condition without freezing coefficient tables (a brittle proxy); see DESIGN.md 4.9',
